@@ -9,6 +9,7 @@ package main
 import (
 	"context"
 	"errors"
+	"fmt"
 	"io"
 	"net"
 	"os"
@@ -27,10 +28,13 @@ var (
 )
 
 const (
-	clntRdData = iota
-	clntRdTimeout
+	clntRdData    = iota
+	clntRdTimeout // *net.OpError{Err: os.ErrDeadlineExceeded}: has Timeout() == true
 	clntRdEOF
 	clntRdIOErr
+	clntRdTimeoutBare    // os.ErrDeadlineExceeded itself
+	clntRdTimeoutWrapped // fmt.Errorf("...: %w", os.ErrDeadlineExceeded): no Timeout method
+	clntRdEOFWrapped     // fmt.Errorf("...: %w", io.EOF)
 )
 
 // the total read timeout configured when the script contains a "timer fired" step, and how long
@@ -167,7 +171,35 @@ func clntErrClass(err error) int {
 	return 3
 }
 
+// three ways of implementing modbus.ClientHooks: methods on a pointer (clntHooks), on a struct
+// value (clntHooksVal) and on a named func type (clntHooksFunc); what they record is the same
 type clntHooks struct{ rec *clntRec }
+
+type clntHooksVal struct{ rec *clntRec }
+
+func (h clntHooksVal) BeforeWrite(toWrite []byte) { h.rec.add(L(I(0), B(toWrite))) }
+func (h clntHooksVal) AfterEachRead(received []byte, n int, err error) {
+	h.rec.add(L(I(1), B(received), I(n), I(clntErrClass(err))))
+}
+func (h clntHooksVal) BeforeParse(received []byte) { h.rec.add(L(I(2), B(received))) }
+
+type clntHooksFunc func(v V)
+
+func (f clntHooksFunc) BeforeWrite(toWrite []byte) { f(L(I(0), B(toWrite))) }
+func (f clntHooksFunc) AfterEachRead(received []byte, n int, err error) {
+	f(L(I(1), B(received), I(n), I(clntErrClass(err))))
+}
+func (f clntHooksFunc) BeforeParse(received []byte) { f(L(I(2), B(received))) }
+
+func clntMakeHooks(kind int, rec *clntRec) modbus.ClientHooks {
+	switch kind {
+	case 1:
+		return clntHooksVal{rec}
+	case 2:
+		return clntHooksFunc(rec.add)
+	}
+	return &clntHooks{rec}
+}
 
 func (h *clntHooks) BeforeWrite(toWrite []byte) { h.rec.add(L(I(0), B(toWrite))) }
 func (h *clntHooks) AfterEachRead(received []byte, n int, err error) {
@@ -222,9 +254,18 @@ func (t *clntTransport) Read(p []byte) (int, error) {
 	case clntRdTimeout:
 		n = copy(p, st.data)
 		err = &net.OpError{Op: "read", Net: "scripted", Err: os.ErrDeadlineExceeded}
+	case clntRdTimeoutBare:
+		n = copy(p, st.data)
+		err = os.ErrDeadlineExceeded
+	case clntRdTimeoutWrapped:
+		n = copy(p, st.data)
+		err = fmt.Errorf("scripted read: %w", os.ErrDeadlineExceeded)
 	case clntRdEOF:
 		n = copy(p, st.data)
 		err = io.EOF
+	case clntRdEOFWrapped:
+		n = copy(p, st.data)
+		err = fmt.Errorf("scripted read: %w", io.EOF)
 	case clntRdIOErr:
 		n = copy(p, st.data)
 		err = &net.OpError{Op: "read", Net: "scripted", Err: clntErrRead}
@@ -296,17 +337,18 @@ func (p clntFlushPort) Flush() error {
 // ---------- one case ----------
 
 type clntCase struct {
-	kind    int // 0 TCP client, 1 RTU network client, 2 serial client
-	conn    bool
-	flusher bool
-	hooks   bool // entry cdo only
-	pair    bool // entry cdo2: run without and with hooks
-	rq      *clntRq
-	sc      clntScript
-	want    V
-	ops     []clntOp // entry cdoseq: several calls on one client object (conn: the serial port is given)
-	ctor    int      // which public constructor makes the client (see coq/DispClient.v)
-	ctorSet bool     // chosen by the generator; otherwise the streams rotate through the variants
+	kind     int // 0 TCP client, 1 RTU network client, 2 serial client
+	conn     bool
+	flusher  bool
+	hooks    bool // entry cdo only
+	pair     bool // entry cdo2: run without and with hooks
+	rq       *clntRq
+	sc       clntScript
+	want     V
+	ops      []clntOp // entry cdoseq: several calls on one client object (conn: the serial port is given)
+	ctor     int      // which public constructor makes the client (see coq/DispClient.v)
+	ctorSet  bool     // chosen by the generator; otherwise the streams rotate through the variants
+	hookKind int      // how the hooks are implemented: 0 pointer, 1 struct value, 2 func type
 }
 
 func (c *clntCase) args() V {
@@ -315,7 +357,7 @@ func (c *clntCase) args() V {
 		for i, o := range c.ops {
 			ops[i] = o.val()
 		}
-		return L(I(c.kind), Bool(c.conn), Bool(c.flusher), Bool(c.hooks), L(ops...), I(c.ctor))
+		return L(I(c.kind), Bool(c.conn), Bool(c.flusher), Bool(c.hooks), L(ops...), I(c.ctor+10*c.hookKind))
 	}
 	rq := L()
 	if c.rq != nil {
@@ -326,9 +368,9 @@ func (c *clntCase) args() V {
 		want = L()
 	}
 	if c.pair {
-		return L(I(c.kind), Bool(c.conn), Bool(c.flusher), rq, c.sc.val(), want, I(c.ctor))
+		return L(I(c.kind), Bool(c.conn), Bool(c.flusher), rq, c.sc.val(), want, I(c.ctor+10*c.hookKind))
 	}
-	return L(I(c.kind), Bool(c.conn), Bool(c.flusher), Bool(c.hooks), rq, c.sc.val(), want, I(c.ctor))
+	return L(I(c.kind), Bool(c.conn), Bool(c.flusher), Bool(c.hooks), rq, c.sc.val(), want, I(c.ctor+10*c.hookKind))
 }
 
 func clntProject(resp packet.Response, err error) V {
@@ -401,7 +443,7 @@ type clntClient struct {
 // the constructors without configuration, is handled by clntRunBlind)
 var clntCtors = [3]int{4, 4, 3}
 
-func clntNewClient(kind int, port, flusher, hooks bool, timeout time.Duration, ctor int) *clntClient {
+func clntNewClient(kind int, port, flusher, hooks bool, timeout time.Duration, ctor, hookKind int) *clntClient {
 	cc := &clntClient{kind: kind, rec: &clntRec{}, timeout: timeout}
 	cc.tr = &clntTransport{rec: cc.rec, cancel: func() {}, serial: kind == 2}
 	if kind == 2 {
@@ -415,7 +457,7 @@ func clntNewClient(kind int, port, flusher, hooks bool, timeout time.Duration, c
 		}
 		var h modbus.ClientHooks
 		if hooks {
-			h = &clntHooks{cc.rec}
+			h = clntMakeHooks(hookKind, cc.rec)
 		}
 		var opts []modbus.SerialClientOptionFunc
 		switch ctor {
@@ -452,7 +494,7 @@ func clntNewClient(kind int, port, flusher, hooks bool, timeout time.Duration, c
 		},
 	}
 	if hooks {
-		conf.Hooks = &clntHooks{cc.rec}
+		conf.Hooks = clntMakeHooks(hookKind, cc.rec)
 	}
 	if ctor%2 == 1 {
 		conf.WriteTimeout = 0 // the default
@@ -676,7 +718,7 @@ func clntRunOnce(c *clntCase, hooks bool, try int) ([]V, bool) {
 	if c.ctor == 4 {
 		return clntRunBlind(c), false
 	}
-	cc := clntNewClient(c.kind, c.conn, c.flusher, hooks, clntTimeoutFor(try, c.sc), c.ctor)
+	cc := clntNewClient(c.kind, c.conn, c.flusher, hooks, clntTimeoutFor(try, c.sc), c.ctor, c.hookKind)
 	if c.conn && cc.net != nil {
 		if e := cc.net.Connect(context.Background(), "scripted"); e != nil {
 			panic(e)
@@ -780,7 +822,7 @@ func clntRunSeq(c *clntCase) V {
 		for _, o := range c.ops {
 			scripts = append(scripts, o.sc)
 		}
-		cc := clntNewClient(c.kind, c.conn, c.flusher, c.hooks, clntTimeoutFor(try, scripts...), c.ctor)
+		cc := clntNewClient(c.kind, c.conn, c.flusher, c.hooks, clntTimeoutFor(try, scripts...), c.ctor, c.hookKind)
 		out = out[:0]
 		late := false
 		kept := map[int]packet.Response{} // every response object returned, by position
